@@ -167,6 +167,11 @@ fn main() {
             Err(msg) => {
                 // absolute locations are legitimately part of some messages; normalise the manifest root away
                 let norm = if root.is_empty() { msg.clone() } else { msg.replace(&root, "<ROOT>") };
+                // the property speaks about emitted code; for a rejected grammar only "rejected, with these diagnostics"
+                // is compared, not the order in which a validator happens to list several diagnostics
+                let mut lines: Vec<&str> = norm.lines().collect();
+                lines.sort();
+                let norm = lines.join("\n");
                 writeln!(w, "STEP {i} PANIC:{} {} {}", sha(&norm), norm.len(), key).unwrap();
             }
         }
